@@ -80,6 +80,11 @@ func sortedHeaderLines(h http.Header) []hline {
 var negAccepts = []string{"", "gzip", "br", "gzip, br", "br, gzip", "deflate", "identity", "zstd, gzip", "gzip, deflate, br", "br;q=1.0, gzip;q=0.8", "*", "x-gzip", "compress", "deflate, br"}
 
 func genBody(r *hx.Rand, min int) []byte {
+	if r.Chance(8) {
+		// a body that is itself a gzip file (a .gz download served with identity encoding)
+		g, _ := compress.VerifGzip(bytes.Repeat([]byte("inner text of the gz file "), 3+r.Intn(6)), 6)
+		return g
+	}
 	switch r.Intn(9) {
 	case 8:
 		return bytes.Repeat([]byte("z"), 300) // compressible far beyond 10x
@@ -107,7 +112,7 @@ func genBody(r *hx.Rand, min int) []byte {
 func runNegotiate(seed uint64, n int, tier string, out string, replay string) {
 	rnd := hx.NewRand(seed)
 	sum := hx.NewSummary("negotiate", seed)
-	sum.Rule = "one case = one upstream answer (status, headers, one of the six documented encodings or a malformed stream, body from {empty, 1 B, min-1, min, min+1, random, repetitive, json}) x server settings (profile name registered/unregistered/best, min length 0/1/16/64, filter default/custom/non-matching; the same content types are reused under different filters within the process) x {not stored, stored via Cacheable, stored + persistence round trip}, served under 5 Accept-Encoding values drawn from 14 plain coding lists; non-trivial = compressible response (some variant above the threshold and type matches); distinct by (encoding, body, settings, path); Go-side only: 4 large highly compressible bodies (20 KB-300 KiB, LZ4 ratios 198-254) in each of the six upstream encodings through NewHTTPResponse -> Cacheable -> Fill under 4 Accept-Encoding values, decoded with reference decoders"
+	sum.Rule = "one case = one upstream answer (status, headers, one of the six documented encodings or a malformed stream, body from {empty, 1 B, min-1, min, min+1, random, repetitive, json, a gzip file as the body itself}) x server settings (profile name registered/unregistered/best, min length 0/1/16/64, filter default/custom/non-matching; the same content types are reused under different filters within the process) x {not stored, stored via Cacheable, stored + persistence round trip}, served under 5 Accept-Encoding values drawn from 14 plain coding lists; non-trivial = compressible response (some variant above the threshold and type matches); distinct by (encoding, body, settings, path); Go-side only: 4 large highly compressible bodies (20 KB-300 KiB, LZ4 ratios 198-254) in each of the six upstream encodings through NewHTTPResponse -> Cacheable -> Fill under 4 Accept-Encoding values, decoded with reference decoders"
 	header := "From Coq Require Import List NArith ZArith.\nImport ListNotations.\nFrom Pike Require Import Base.Bytes Model.MaxAge Model.Resp Corr.RespCorr.\n"
 	w := hx.NewCaseWriter(out, "negotiate", header, "list rs_case", "check_cases", 40, sum)
 	distinct := hx.NewDistinct()
